@@ -119,7 +119,9 @@ func derivedRLWE(c *eng.Ctx, l lit, p rlwe.Parameters, r *eng.Rand) {
 	n := 1 << l.LogN
 	nth := l.nthRoot()
 	chk(p.N() == n && p.LogN() == l.LogN, "N", func() string { return fmt.Sprintf("N=%d LogN=%d", p.N(), p.LogN()) })
-	chk(uint64(p.NthRoot()) == nth && p.LogNthRoot() == bitlen(nth)-1, "NthRoot", func() string { return fmt.Sprintf("NthRoot=%d LogNthRoot=%d want %d", p.NthRoot(), p.LogNthRoot(), nth) })
+	chk(uint64(p.NthRoot()) == nth && p.LogNthRoot() == bitlen(nth)-1, "NthRoot", func() string {
+		return fmt.Sprintf("NthRoot=%d LogNthRoot=%d want %d", p.NthRoot(), p.LogNthRoot(), nth)
+	})
 	chk(p.RingType() == ring.Type(l.Ring), "RingType", func() string { return fmt.Sprint(p.RingType()) })
 	chk(p.QCount() == len(l.Q) && p.PCount() == len(l.P) && p.QPCount() == len(l.Q)+len(l.P), "QCount", func() string { return fmt.Sprint(p.QCount(), p.PCount(), p.QPCount()) })
 	chk(p.MaxLevel() == len(l.Q)-1 && p.MaxLevelQ() == len(l.Q)-1 && p.MaxLevelP() == len(l.P)-1, "MaxLevel", func() string { return fmt.Sprint(p.MaxLevel(), p.MaxLevelQ(), p.MaxLevelP()) })
@@ -257,7 +259,9 @@ func halfBitOrBoundary(q uint64, b int) bool {
 func derivedCKKS(c *eng.Ctx, l lit, p ckks.Parameters, r *eng.Rand) {
 	d := "C19|ckks.Parameters."
 	chk := func(ok bool, name string, detail func() string) {
-		c.Check(ok, d+name+"|wrong-value", func() string { return detail() + fmt.Sprintf(" (LogN=%d ring=%d Q=%v logscale=%d)", l.LogN, l.Ring, l.Q, l.LogScale) })
+		c.Check(ok, d+name+"|wrong-value", func() string {
+			return detail() + fmt.Sprintf(" (LogN=%d ring=%d Q=%v logscale=%d)", l.LogN, l.Ring, l.Q, l.LogScale)
+		})
 	}
 	n := 1 << l.LogN
 	nth := l.nthRoot()
@@ -293,7 +297,9 @@ func derivedCKKS(c *eng.Ctx, l lit, p ckks.Parameters, r *eng.Rand) {
 		}
 	}
 	for _, k := range []int{1, -1, 5, n / 4, r.N(1 << 16)} {
-		chk(p.GaloisElementForRotation(k) == galoisModel(nth, k), "GaloisElementForRotation", func() string { return fmt.Sprintf("(%d)=%d want %d", k, p.GaloisElementForRotation(k), galoisModel(nth, k)) })
+		chk(p.GaloisElementForRotation(k) == galoisModel(nth, k), "GaloisElementForRotation", func() string {
+			return fmt.Sprintf("(%d)=%d want %d", k, p.GaloisElementForRotation(k), galoisModel(nth, k))
+		})
 	}
 	if l.Ring == 0 {
 		chk(p.GaloisElementForComplexConjugation() == nth-1, "GaloisElementForComplexConjugation", func() string { return fmt.Sprint(p.GaloisElementForComplexConjugation()) })
